@@ -106,6 +106,7 @@ type frame struct {
 }
 
 type FnVC struct {
+	constCells     map[string]Val // address term -> value of function-typed cells that are written once (see exec.go)
 	optInst        bool     // set by quant() for the next underBinder call
 	unboundClauses []string // postcondition / iteration clauses that did not bind (reported, no obligation)
 	w     *World
@@ -1375,6 +1376,49 @@ func (v *FnVC) enterLoop(fr *frame, li *loopInfo, b *ssa.BasicBlock, st *State, 
 						st.ghost[ck] = n
 					}
 				}
+			}
+		}
+	}
+	{
+		// closures made in the loop may call a function-typed parameter they capture (observed since such calls are
+		// observed in inlined own closures): every parameter observer is havocked when the body makes a closure, or -
+		// in a loop of such a closure - calls a captured function value
+		makes := false
+		for _, bb := range fr.fn.Blocks {
+			if !li.body[bb.Index] {
+				continue
+			}
+			for _, ins := range bb.Instrs {
+				if _, ok := ins.(*ssa.MakeClosure); ok {
+					makes = true
+				}
+				if ci, ok := ins.(ssa.CallInstruction); ok && !fr.top {
+					if _, isFV := ci.Common().Value.(*ssa.FreeVar); isFV {
+						makes = true
+					}
+				}
+			}
+		}
+		if makes {
+			for _, par := range v.fn.Params {
+				if _, isSig := under(par.Type()).(*types.Signature); !isSig {
+					continue
+				}
+				pk := "param:" + par.Name()
+				for _, g := range []string{"called#", "errSeen#"} {
+					old := st.ghostGet(g + pk)
+					n := v.sc.Fresh("ghost", SBool)
+					v.sc.Assert(Implies(old, n))
+					st.ghost[g+pk] = n
+				}
+				ck := "count#" + pk
+				old := tZero
+				if t, ok := st.ghost[ck]; ok {
+					old = t
+				}
+				n := v.sc.Fresh("ghostn", SInt)
+				v.sc.Assert(Le(old, n))
+				st.ghost[ck] = n
 			}
 		}
 	}
